@@ -11,10 +11,10 @@
    Part 2 (end of this file): the getline()/fgets() loop of the text readers (task.txt, info, .map,
    .sym): split into '\n'-terminated lines plus an unterminated last line.
 
-   The model describes the code AS IT IS: `read_stream false` ignores the result of
-   read_task_args/read_task_event exactly like read_task_ustack does (DESIGN section 9 #6);
-   `read_stream true` is the proposed repair (proposed-fixes/C12-1.diff): a payload read that
-   hits end-of-file ends the task's data.
+   The model describes the code AS IT IS: `read_stream true` is read_task_ustack of the current tree, in which a
+   payload read that hits end-of-file ends the task's data (fix ec00259).  `read_stream false` is the reader
+   before that repair (legacy): it ignored the result of read_task_args/read_task_event (DESIGN section 9 #6);
+   it is kept only for the `_legacy_` statements (refutation and exact characterisation of the old behaviour).
 
    No proofs in this file. *)
 From Coq Require Import NArith List Bool Arith.
@@ -98,7 +98,7 @@ Fixpoint read_args (sps : list aspec) (a : ast) (f : bytes) : rres * ast * bytes
   end.
 
 Section Reader.
-  Variable fixed : bool.                                        (* false = /repo as it is *)
+  Variable fixed : bool.                                        (* true = /repo as it is; false = legacy (before ec00259) *)
   Variable env : N -> option (list aspec * list aspec).         (* session_find_filter + ARGUMENT|RETVAL flag *)
   Variable evsize : N -> option nat.                            (* fixed-size cases of read_task_event *)
   Variable watchvar : N -> bool.                                (* EVENT_ID_WATCH_VAR: not modelled *)
@@ -268,7 +268,7 @@ Fixpoint cut_len (vals : list aval) (len m : nat) : nat :=
       if m <? size then 0 else size + cut_len r (len + size) (m - size)
   end.
 
-(* the cuts on which the code as it is reports something that is not in the file: inside an argument
+(* the cuts on which the LEGACY reader reported something that is not in the file: inside an argument
    payload after its first completely read piece, or inside an event payload when an earlier record
    of the task carried a payload (whose bytes are then shown again).  [live]: task->args is non-empty *)
 Fixpoint defect_cut (live : bool) (rs : list rec) (n : nat) : bool :=
